@@ -185,6 +185,7 @@ pub fn finish(ctx: &Ctx, rep: Report) -> i32 {
             "exit_classes": p.stats.exits,
             "faults_requested": p.stats.faults_requested,
             "faults_reached": p.stats.faults_reached,
+            "watchdog_reruns": p.stats.watchdog_reruns,
             "violations": p.stats.violations.len(),
             "capped": p.stats.capped,
             "exhaustive": p.exhaustive,
